@@ -40,7 +40,8 @@ theorem loop_done (fetchN : Nat → OMap) (good : Entry → Bool) (amount T : Na
       simp only [Bool.or_eq_true, beq_iff_eq, decide_eq_true_eq, not_or, Nat.not_lt, Nat.not_le] at hd
       obtain ⟨⟨_, h2⟩, h3⟩ := hd
       have := hle len
-      omega
+      unfold nextLen
+      split <;> omega
 
 /-- in the terms of the entries kept: at the end the fetch keeps at least `amount` entries, or it is
 the whole log, or nothing was left out of it -/
@@ -60,13 +61,78 @@ theorem loop_keeps_enough (fetchN : Nat → OMap) (good : Entry → Bool) (amoun
   · exact Or.inr (Or.inl h)
   · left; omega
 
+/-- **the loop with a fetcher that changes from round to round** (entries found to belong to another log
+are excluded from the next fetch: F63) **ends, and ends as before**: whatever the fetchers of the rounds
+are, as long as none returns more than it is asked for nor more than `T` entries, `T + 1` rounds are
+enough and the last fetch either left nothing out, or came back short, or keeps at least `amount` -/
+theorem loopR_done (fs : Nat → Nat → OMap) (good : Entry → Bool) (amount T : Nat)
+    (hle : ∀ k n, (fs k n).length ≤ n) (hT : ∀ k n, (fs k n).length ≤ T) :
+    ∀ fuel k len, T + 1 ≤ fuel + len →
+      done (fs (loopR fs good amount fuel k len).1) good amount (loopR fs good amount fuel k len).2 = true
+  | 0, k, len, h => by
+    unfold loopR done
+    have : (fs k len).length < len := by have := hT k len; omega
+    simp [this]
+  | fuel+1, k, len, h => by
+    unfold loopR
+    by_cases hd : done (fs k) good amount len = true
+    · simp [hd]
+    · simp only [hd, Bool.false_eq_true, if_false]
+      apply loopR_done fs good amount T hle hT fuel
+      unfold done at hd
+      simp only [Bool.or_eq_true, beq_iff_eq, decide_eq_true_eq, not_or, Nat.not_lt, Nat.not_le] at hd
+      obtain ⟨⟨_, h2⟩, h3⟩ := hd
+      have := hle k len
+      unfold nextLen
+      split <;> omega
+
+theorem loopR_keeps_enough (fs : Nat → Nat → OMap) (good : Entry → Bool) (amount T : Nat)
+    (hle : ∀ k n, (fs k n).length ≤ n) (hT : ∀ k n, (fs k n).length ≤ T) (len : Nat) :
+    let r := loopR fs good amount (T + 1) 0 len
+    kept good (fs r.1 r.2) ≥ amount ∨ (fs r.1 r.2).length < r.2 ∨ refused good (fs r.1 r.2) = 0 := by
+  intro r
+  have hd := loopR_done fs good amount T hle hT (T + 1) 0 len (by omega)
+  change done (fs r.1) good amount r.2 = true at hd
+  generalize r.1 = k at hd ⊢
+  generalize r.2 = n at hd ⊢
+  unfold done at hd
+  simp only [Bool.or_eq_true, beq_iff_eq, decide_eq_true_eq] at hd
+  have hk := kept_add_refused good (fs k n)
+  have hr := refused_le good (fs k n)
+  rcases hd with (h | h) | h
+  · exact Or.inr (Or.inr h)
+  · exact Or.inr (Or.inl h)
+  · left; omega
+
+/-- with one fetcher for every round this is the loop of F57 -/
+theorem loopR_const (fetchN : Nat → OMap) (good : Entry → Bool) (amount : Nat) :
+    ∀ fuel k len, (loopR (fun _ => fetchN) good amount fuel k len).2 = loop fetchN good amount fuel len
+  | 0, _, _ => rfl
+  | fuel+1, k, len => by
+    unfold loopR loop
+    by_cases hd : done fetchN good amount len = true
+    · simp [hd]
+    · simp only [hd, Bool.false_eq_true, if_false]
+      exact loopR_const fetchN good amount fuel (k + 1) _
+
+/-- the review's input in small: the 3 newest entries reached from the head belong to another log. The
+fetcher of a round leaves out what the earlier rounds found foreign (`all` minus the first `2k` foreign
+ones here): two rounds, and the second one is not asked to walk through the foreign entries again -/
+theorem excluding_fetch_example :
+    let e (h : Nat) (lg : Nat) : Entry := { hash := h, logId := lg, time := h, cid := 0, next := [] }
+    let all : OMap := [e 9 1, e 8 7, e 7 7, e 6 7, e 5 1, e 4 1, e 3 1, e 2 1, e 1 1]
+    let seen (k : Nat) : OMap := (all.take (3 * k)).filter (fun x => x.logId != 1)
+    let fs : Nat → Nat → OMap := fun k n => (all.filter (fun x => !(seen k).contains x)).take n
+    let good : Entry → Bool := fun x => x.logId == 1
+    loopR fs good 3 10 0 3 = (1, 6) ∧ kept good (fs 1 6) = 5 ∧ (fs 1 6).map (·.hash) = [9, 6, 5, 4, 3, 2] := by decide
+
 /-- Refutation witness for `Load` as it was (one fetch of length `amount`): of the 3 newest entries one
-is foreign: 2 are kept although the log has 4; the loop asks for 4 and keeps 3 -/
+is foreign: 2 are kept although the log has 4; the loop asks for 6 and keeps all 4 -/
 theorem one_fetch_kept_too_few :
     let e (h : Nat) (lg : Nat) : Entry := { hash := h, logId := lg, time := h, cid := 0, next := [] }
     let all : OMap := [e 5 1, e 4 7, e 3 1, e 2 1, e 1 1]      -- newest first; entry 4 belongs to log 7
     let fetchN : Nat → OMap := fun n => all.take n
     let good : Entry → Bool := fun x => x.logId == 1
-    kept good (fetchN 3) = 2 ∧ loop fetchN good 3 6 3 = 4 ∧ kept good (fetchN 4) = 3 := by decide
+    kept good (fetchN 3) = 2 ∧ loop fetchN good 3 6 3 = 6 ∧ kept good (fetchN 6) = 4 := by decide
 
 end Orbit.Refetch
